@@ -746,6 +746,15 @@ def run(ctx):
                 pre[t.elts[0].id] = q
                 pre[t.elts[1].id] = of_expr(a_, pre, W) - q * of_expr(b_, pre, W)
         if isinstance(st, ast.For):
+            # `for v in [E(i) for i in range(n)]: body` is `for i in range(n): v = E(i); body` (E is an expression of the index)
+            it_ = st.iter
+            if isinstance(it_, (ast.ListComp, ast.GeneratorExp)) and len(it_.generators) == 1 and not it_.generators[0].ifs \
+                    and isinstance(it_.generators[0].iter, ast.Call) and dotted(it_.generators[0].iter.func) == "range" \
+                    and isinstance(it_.generators[0].target, ast.Name) and isinstance(st.target, ast.Name) and not st.orelse:
+                asg_ = ast.copy_location(ast.Assign(targets=[ast.Name(id=st.target.id, ctx=ast.Store())], value=it_.elt, type_comment=None), st)
+                st = ast.copy_location(ast.For(target=it_.generators[0].target, iter=it_.generators[0].iter, body=[asg_] + list(st.body), orelse=[],
+                                               type_comment=None), st)
+                ast.fix_missing_locations(st)
             loops.append(st)
 
     def loop_sum(loop, addcall, kw):
